@@ -347,6 +347,7 @@ class Engine:
         self.loop_limit = loop_limit
         self.redirect = {}
         self.max_paths = max_paths
+        self.inline_fn_values = True  # a named fn passed as a callback is analysed in place like a closure
         self.max_depth = max_depth
         self.enum_tables = {}
         for u in program.units:
@@ -507,11 +508,19 @@ class Engine:
                 v = self.eval_static(b)
                 if v is not None:
                     return RefV(Cell(copy.deepcopy(v), "static"))
-        if "def" in c and not c.get("defargs"):
-            # a named constant of aggregate type: evaluate its (straight-line) initialiser
+        if "def" in c:
+            # a named constant of aggregate type: evaluate its (straight-line) initialiser. (An associated constant of a
+            # generic impl is evaluated the same way; an initialiser that depends on the type parameters does not evaluate.)
             b = self.find_body(self.unit_qual(fr, strip_generics(c["def"]))) or self.find_body(strip_generics(c["def"]))
             if b is not None and b.bkind == "const":
-                v = self.eval_promoted(b.mir)
+                v = self.eval_promoted(b.mir) if not c.get("defargs") else None
+                if v is None and c.get("defargs"):
+                    try:
+                        v = self.eval_static(b)
+                    except Exception:
+                        v = None
+                    if v is not None and "Top" in repr(snapshot(v)):
+                        v = None
                 if v is not None:
                     return copy.deepcopy(v)
         return TOP
@@ -1204,7 +1213,7 @@ class Engine:
             self.enter_closure(st, fr, f, f, cargs, Loc(tmp), -1)
         elif isinstance(f, FnV):
             body = self.find_body(f.path)
-            if body is None or not self.inline(f.path, f.path):
+            if body is None or not (self.inline(f.path, f.path) or self.inline_fn_values):
                 m = self.models.get(f.path)
                 if m is not None:
                     r = m(self, st, fr, t, f.path, f.path, list(cargs))
@@ -1443,6 +1452,12 @@ def m_from_residual(eng, st, fr, t, name, rname, args):
 
 
 def m_into(eng, st, fr, t, name, rname, args):
+    if "From<bool>" in (rname or "") and "core::convert::num" in (rname or ""):
+        v = eng.resolve(st, args[0])
+        if isinstance(v, RefV):
+            v = eng.resolve(st, load(Loc(v.cell, v.path)))
+        if isinstance(v, K) and isinstance(v.v, bool):
+            return K(int(v.v))
     return AggV("From::from", {0: args[0]})
 
 
@@ -1554,6 +1569,70 @@ def m_res_and_then(eng, st, fr, t, name, rname, args):
         return v
     if isinstance(v, EnumV) and v.name == "Ok":
         return eng.call_closure(st, fr, args[1], [v.fields.get(0, TOP)], t)
+    return NotImplemented
+
+
+def split_boolv(eng, st, fr, t, v):
+    """Fork on an unknown bool: [(state, True), (state, False)], binding the symbol on each path (as `switch` does)."""
+    v = eng.resolve(st, v)
+    if isinstance(v, K):
+        return [(st, bool(v.v))]
+    out = []
+    s2 = eng.fork(st)
+    for s, val in ((st, True), (s2, False)):
+        if isinstance(v, SymV):
+            s.facts[v.id] = K(val)
+            s.trace.append(Event("assume", "sym", None, (snapshot(v), val), fr.bi, t.get("line") if t else "?", len(s.frames), fr.body.npath if fr.body else "?"))
+        out.append((s, val))
+    return out
+
+
+def m_bool_then(eng, st, fr, t, name, rname, args):
+    """bool::then(f) / bool::then_some(v)"""
+    lazy = name.endswith("::then")
+    out = []
+    for s, val in split_boolv(eng, st, fr, t, args[0]):
+        f2 = s.frames[-1]
+        a1 = args[1] if s is st else eng.operand(s, f2, t["args"][1])
+        if not val:
+            out.append((s, mk_option(None)))
+        elif lazy:
+            out.extend((s3, mk_option(r)) for s3, r in eng.call_closure(s, f2, a1, [], t))
+        else:
+            out.append((s, mk_option(a1)))
+    return out
+
+
+def m_inspect(eng, st, fr, t, name, rname, args):
+    """Result::inspect / Result::inspect_err / Option::inspect: the closure sees a reference to the payload, the value is returned as it is"""
+    v = eng.resolve(st, args[0])
+    if not (isinstance(v, EnumV) and v.name is not None):
+        return NotImplemented
+    want = "Err" if name.endswith("inspect_err") else ("Some" if "option" in name else "Ok")
+    if v.name != want:
+        return v
+    cell = Cell(v.fields.get(0, TOP), "inspected")
+    out = []
+    for s, _ in eng.call_closure(st, fr, args[1], [RefV(cell)], t):
+        out.append((s, v))
+    return out
+
+
+def m_opt_filter(eng, st, fr, t, name, rname, args):
+    v = eng.resolve(st, args[0])
+    if isinstance(v, EnumV) and v.name == "None":
+        return v
+    if isinstance(v, EnumV) and v.name == "Some":
+        cell = Cell(v.fields.get(0, TOP), "filtered")
+        out = []
+        for s, r in eng.call_closure(st, fr, args[1], [RefV(cell)], t):
+            if s.outcome is not None:
+                out.append((s, TOP))
+                continue
+            f2 = s.frames[-1]
+            for s3, keep in split_boolv(eng, s, f2, t, r):
+                out.append((s3, v if keep else mk_option(None)))
+        return out
     return NotImplemented
 
 
@@ -1821,7 +1900,37 @@ def m_clone(eng, st, fr, t, name, rname, args):
     return NotImplemented
 
 
+ARRAY_INTO_ITER = "array-into-iter"
+
+
+def m_array_into_iter(eng, st, fr, t, name, rname, args):
+    """`for x in [a, b, c]`: an array consumed by value"""
+    v = eng.resolve(st, args[0])
+    if isinstance(v, AggV) and v.kind == "array" and all(isinstance(k, int) for k in v.fields):
+        return AggV(ARRAY_INTO_ITER, {0: K(0), 1: v, 2: K(len(v.fields))})
+    return NotImplemented
+
+
+def m_array_into_next(eng, st, fr, t, name, rname, args):
+    v = eng.resolve(st, args[0])
+    n = 0
+    while isinstance(v, RefV) and n < 6:
+        v = eng.resolve(st, load(Loc(v.cell, v.path)))
+        n += 1
+    if not (isinstance(v, AggV) and v.kind == ARRAY_INTO_ITER):
+        return NotImplemented
+    pos, arr, cnt = v.fields[0].v, v.fields[1], v.fields[2].v
+    if pos < cnt:
+        v.fields[0] = K(pos + 1)
+        return mk_option(arr.fields[pos])
+    return mk_option(None)
+
+
+
 DEFAULT_MODELS = {
+    "core::iter::IntoIterator::into_iter": m_array_into_iter,
+    "core::iter::Iterator::next": m_array_into_next,
+    "<core::array::IntoIter<T, N> as core::iter::Iterator>::next": m_array_into_next,
     "core::ops::Try::branch": m_try_branch,
     "<core::result::Result<T, E> as core::ops::Try>::branch": m_try_branch,
     "<core::option::Option<T> as core::ops::Try>::branch": m_try_branch,
@@ -1841,6 +1950,12 @@ DEFAULT_MODELS = {
     "core::result::Result::map_err": lift(None, m_res_map_err, "result"),
     "core::result::Result::and_then": lift(None, m_res_and_then, "result"),
     "core::result::Result::or_else": lift(None, m_res_or_else, "result"),
+    "core::bool::then": m_bool_then,
+    "core::bool::then_some": m_bool_then,
+    "core::result::Result::inspect_err": lift(None, m_inspect, "result"),
+    "core::result::Result::inspect": lift(None, m_inspect, "result"),
+    "core::option::Option::inspect": lift(None, m_inspect, "option"),
+    "core::option::Option::filter": lift(None, m_opt_filter, "option"),
     "core::option::Option::transpose": lift(None, m_opt_transpose, "option"),
     "core::result::Result::transpose": lift(None, m_res_transpose, "result"),
     "core::option::Option::and_then": lift(None, m_opt_and_then, "option"),
